@@ -255,7 +255,7 @@ def _prep_file_slow(task):
     name, tier, seed, focus, _ = task
     fi = _file_info(name)
     res = dict(name=name, ok=False, pool=[], refs={}, ticks={}, cross=[], positions={}, kinds=[], skipped=None)
-    st, cat = forkpool.isolated(lambda _: catalog.build(fi['data'], fi['follow'], fi['peers'], max_dies=3000), None, timeout=30)
+    st, cat = forkpool.isolated(lambda _: catalog.build(fi['data'], fi['follow'], fi['peers'], max_dies=3000), None, timeout=60)
     if st != 'ok':
         res['skipped'] = 'catalogue: %s' % st
         if st == 'timeout':
@@ -270,11 +270,11 @@ def _prep_file_slow(task):
     for op in ops:
         if hangs >= 2:
             break
-        st, out = forkpool.isolated(_ref_task, (name, op), timeout=15)
+        st, out = forkpool.isolated(_ref_task, (name, op), timeout=30)
         if st == 'timeout':
             hangs += 1
             res['cross'].append(dict(key=runner.HANG_KEY, op=op, check='solo execution does not terminate', expected='terminates',
-                                     observed='killed after 15 s', hang=True))
+                                     observed='killed after 30 s', hang=True))
             continue
         if st != 'ok' or out[2]:
             continue
@@ -406,7 +406,7 @@ def prepare(prop, tier, seed, only=None, context=None):
     slow = []
     # if preparation children keep being killed by the watchdog the tree has a systematic hang: a few pinned-down
     # instances are enough, the rest of the files are not started
-    for ti, (st, res) in forkpool.pmap(_prep_file, tasks, timeout=60 if tier == 'quick' else 600, abort=lambda: len(slow) >= 6):
+    for ti, (st, res) in forkpool.pmap(_prep_file, tasks, timeout=120 if tier == 'quick' else 600, abort=lambda: len(slow) >= 6):
         if st == 'ok':
             results[names[ti]] = res
         elif st == 'timeout':
@@ -460,6 +460,10 @@ def prepare(prop, tier, seed, only=None, context=None):
     if not _ST['names']:
         _ST['n_random'] = 0
         _ST['n_pairs'] = 0
+
+
+def hang_seen():
+    return any(c.get('hang') for c in _ST.get('prep_cross', ()))
 
 
 def n_runs(prop, tier):
